@@ -208,6 +208,12 @@ def run_case(spec):
     cmp('pair_distance(int64 array)', di_int, toli, refi)
     cmp('pair_distance(nested list of ints)', est.pair_distance(pi.tolist()), toli, refi)
     cmp('get_metric()(int arrays)', [metric(p[0], p[1]) for p in pi], toli, refi)
+    Qu = np.array([np.zeros(d), np.arange(1, d + 1) * 20, np.arange(d, 0, -1) * 7, np.full(d, 250)], dtype=np.uint8)
+    pu = np.array([[Qu[i], Qu[j]] for i in range(4) for j in range(4)])
+    refu = np.array([exact.sqrt_float(exact.d2_exact(Lf, exact.fvec(p[0]), exact.fvec(p[1]))) for p in pu])
+    tolu = cst * np.array([exact.scale_abs(L, p[0].astype(float), p[1].astype(float)) for p in pu]) + 1e-300
+    cmp('pair_distance(uint8 array)', est.pair_distance(pu), tolu, refu)
+    cmp('get_metric()(uint8 arrays)', [metric(p[0], p[1]) for p in pu], tolu, refu)
     if k:
         Ti = est.transform(Qi)
         Tri = np.array([[float(x) for x in row] for row in exact.matmul_exact([exact.fvec(q) for q in Qi], exact.transpose(Lf))])
